@@ -8,6 +8,7 @@ import (
 	"os"
 	"os/exec"
 	"path/filepath"
+	"regexp"
 	"runtime"
 	"sort"
 	"strings"
@@ -56,6 +57,17 @@ func main() {
 		if _, e := os.Stat(sp); e == nil {
 			if err := p.AddSpecFile(sp, "extern"); err != nil {
 				fatalViolation(*prop, *verifDir, *out, *tier, seed, start, "specs", err.Error())
+			}
+			// ghost fields that carry the model state of library objects (assumed contracts): `ghostset` may not assign them
+			if txt, e := os.ReadFile(sp); e == nil {
+				p.externGhost = map[string]bool{}
+				for _, m := range regexp.MustCompile(`\b(?:gfa?\(\s*(\w+)|gfield\([^,()]*,\s*(\w+)|ghostzero\s+\S+\s+(\w+))`).FindAllStringSubmatch(string(txt), -1) {
+					for _, g := range m[1:] {
+						if g != "" {
+							p.externGhost[g] = true
+						}
+					}
+				}
 			}
 		}
 	}
